@@ -34,7 +34,7 @@ T2 = "_ipp._tcp.local."
 def floors(tier):
     q = tier == "quick"
     return {"c17.goodbyes": 1500 if q else 150000, "c17.quiet": 2500 if q else 300000, "c17.lookups": 1000 if q else 100000, "c17.second_close": 2500 if q else 300000,
-            "c17.threads": 1 if q else 4}
+            "c17.withdrawn": 2500 if q else 300000, "c17.threads": 1 if q else 4}
 
 
 def plan(tier, seed):
@@ -205,6 +205,38 @@ def run_scenario(res: Result, seed: int) -> None:
         res.sample(dict(desc, close_took_ms=out.get("C", 0) - out.get("C0", 0), timers_left=out.get("timers_left")))
 
 
+def withdrawn_monitor(res: Result, trace: List[Dict[str, Any]], C0: float, C: float, viol) -> None:
+    """The last word on the wire about every instance this host ever advertised is a goodbye (services whose registration was
+    still in progress when close was requested included: never announced, or announced and withdrawn)."""
+    res.mon("c17.withdrawn")
+    first_pos: Dict[str, float] = {}
+    last_pos: Dict[str, float] = {}
+    byes_after: Dict[str, int] = {}
+    for e in trace:
+        if e["host"] != "H" or not e["mcast"]:
+            continue
+        m, _ = wire.try_parse(e["data"], strict=False)
+        if m is None or not m.is_response:
+            continue
+        for r in m.answers + m.additionals:
+            ident = R.ident_of_wire(r)
+            if ident[0] != "PTR" or ident[1] != T1.lower():
+                continue
+            alias = ident[2][0]
+            if r.ttl > 0:
+                first_pos.setdefault(alias, e["t"])
+                last_pos[alias] = e["t"]
+                byes_after[alias] = 0
+            elif alias in last_pos:
+                byes_after[alias] += 1
+    for alias, t in sorted(last_pos.items()):
+        if byes_after[alias] == 0:
+            mech = "registration_completed_during_close_goodbyes" if first_pos[alias] >= C0 - 1e-6 else "other"
+            viol("c17.withdrawn", "announced_not_withdrawn", "%s was last multicast with a positive TTL %.0f ms %s close was requested (first announced at %+.0f ms) "
+                 "and no goodbye for it followed before async_close returned (+%.0f ms)" % (alias, abs(t - C0), "after" if t >= C0 else "before", first_pos[alias] - C0, C - C0),
+                 mechanism=mech)
+
+
 def analyse(res: Result, sim: simnet.Sim, desc: Dict[str, Any], out: Dict[str, Any], log: List[Tuple], viol) -> None:
     C0, C = out["C0"], out["C"]
     # ---- goodbyes before close returned
@@ -228,6 +260,7 @@ def analyse(res: Result, sim: simnet.Sim, desc: Dict[str, Any], out: Dict[str, A
                         viol("c17.goodbyes", "goodbye_after_transport_close", "goodbye handed to a transport that was already closing")
             if n != 3:
                 viol("c17.goodbyes", "goodbye_count_at_close", "%d goodbyes for %s before async_close returned (expected 3)" % (n, s.name), count=n)
+    withdrawn_monitor(res, sim.net.trace[:out["mark_after"]], C0, C, viol)
     # ---- quiet afterwards
     res.mon("c17.quiet")
     after = [e for e in sim.net.trace[out["mark_after"]:] if e["host"] == "H"]
@@ -413,8 +446,48 @@ def run_shard(spec):
     return res
 
 
+def witnesses(spec):
+    """Stored witness of known finding F16: service A registered; registration of B started; async_close requested 300 ms later
+    (between B's second and third probe).  B's third probe and first announcement go out 50 ms into the goodbye phase of A; B
+    was not in the registry when the goodbye was built, so it is announced and never withdrawn."""
+    res = Result()
+    res.evaluations += 1
+    A = Svc(T1, "a." + T1, "ha.local.", 80, b"", [b"\x0a\x00\x00\x05"], [], 120, 4500)
+    B = Svc(T1, "b." + T1, "hb.local.", 81, b"", [b"\x0a\x00\x00\x06"], [], 120, 4500)
+    out: Dict[str, Any] = {}
+
+    def viol(monitor: str, kind: str, detail: str, **sig: Any) -> None:
+        res.violation(monitor, kind, detail, sig, {"witness": "F16"})
+
+    with simnet.Sim(1) as sim:
+        async def main():
+            h = sim.net.add_host("H", "10.0.0.1")
+            azc = await sim.start_host(h)
+            zc = azc.zeroconf
+            t = await zc.async_register_service(R.make_info(A))
+            await t
+            await sim.sleep_ms(2000)
+
+            async def reg_b() -> None:
+                t = await zc.async_register_service(R.make_info(B))
+                await t
+            fut = asyncio.ensure_future(reg_b())
+            await sim.sleep_ms(300)
+            out["C0"] = sim.now_ms()
+            await azc.async_close()
+            out["C"] = sim.now_ms()
+            out["mark_after"] = len(sim.net.trace)
+            await sim.sleep_ms(2000)
+            fut.cancel()
+        sim.run(main())
+        withdrawn_monitor(res, sim.net.trace[:out["mark_after"]], out["C0"], out["C"], viol)
+    return res
+
+
 def replay(blob):
     res = Result()
+    if blob.get("witness"):
+        return witnesses({})
     if blob.get("threads"):
         run_threads(res, blob["seed"])
     else:
